@@ -14,17 +14,29 @@ PID = "C15"
 PROPS_MODULE = "NumbersModel.Props.C15"
 THEOREMS = [f"NumbersModel.Props.C15.{t}" for t in (
     "open_view_lww", "open_view_lww_from", "saved_view_lww", "open_eq_saved", "load_establishes_inv", "shared_edge_both_sides",
-    "api_total_in_range", "fingerprint_injective", "dedup_shares_only_equal", "reading_is_pure")]
+    "api_total_in_range", "fingerprint_injective", "dedup_shares_only_equal", "reading_is_pure",
+    "colour_roundtrip", "colour_roundtrip_binary32", "font_name_roundtrip", "style_attributes_after_reload_quantized",
+    "style_attributes_after_reload", "style_attributes_after_reload_binary32", "updated_style_reads_back",
+    "shared_cell_style_reads_back", "style_archives_injective", "saved_cell_style_ids", "restyled_cell_reads_back")]
 PARTIAL = {
-    "style_attributes_after_reload": "that each of the 15 attributes is stored in and read from the right archive field "
-                                     "(protobuf paragraph/cell style messages, float32 fields, colours as r/255) is not a theorem; "
-                                     "it is exercised by the oracle on every generated style (open and after reopen)"}
+    "document_level_save_loop": "style_attributes_after_reload is proved per cell from the archives the writers produce and the ids "
+                                "_to_buffer assigns (restyled_cell_reads_back, shared_cell_style_reads_back, saved_cell_style_ids); "
+                                "the loops around them - update_paragraph_styles over Document.styles, update_cell_styles' dict loop "
+                                "allocating object ids with create_object_from_dict, Style objects shared by reference between cells - "
+                                "are not composed into one theorem over a whole save (missing: store/heap invariants: fresh object ids, "
+                                "objects written earlier are not overwritten, image table only grows). The existing dedup theorems "
+                                "cover the grouping; the composition is exercised by the storage tie and the oracle"}
 RULE = ("borders: seeded histories of 4..40 strokes (side, start cell, length 1..6, payload from a palette of widths x colours x "
         "4 patterns; biased to a few rows/columns so that strokes overlap, abut and supersede; Border objects partly re-used) on "
         "5x5..12x8 tables with 0..3 merged rectangles, cut into 1..3 segments by save/reopen; one protocol line per segment "
         "(initial layers are read from the real file). styles: N styles x M cells over fonts x sizes x RGB x 5x3 alignments x "
         "indents x inset x wrap x bg colour/image. Non-trivial = a segment with at least two strokes sharing a unit edge, or a "
-        "style case with at least two distinct styles; distinct by protocol line / style set")
+        "style case with at least two distinct styles; distinct by protocol line / style set. storage tie: 1..3 styles with all 15 "
+        "attributes explicit (colour components from 0/1/127/128/254/255, the 15 alignment pairs in rotation, fonts from "
+        "FONT_FAMILY_TO_NAME, sizes/indents incl. values binary32 cannot hold, colour / image / no fill) applied to cells of a new "
+        "document or of a fixture, saved; archives decoded from the package with protobuf; then attributes (also the name) of a saved "
+        "style changed and saved again; plus every cell (capped 14x10 per table) of the fixture documents read through "
+        "Style.from_storage; plus exhaustive tables (alignment names, 188 font families, channel values 0..255)")
 ASSUMPTIONS = [
     "a stroke payload (width, colour, pattern) is an opaque number in the model; that the payload itself survives protobuf "
     "(float32 width read back with round(.,2), colour as round(r/255*255)) is exercised for every stroke, not proved",
@@ -34,6 +46,13 @@ ASSUMPTIONS = [
     "same stroke (checked on every fixture table the run touches)",
     "style floats are drawn from binary32-representable values (file-format limit, known finding style-float-not-binary32)",
     "image file names are unique per document (Document.add_style refuses a second image of the same name)",
+    "protobuf: a float field holds the binary32 nearest (ties to even) to the Python float assigned, HasField is true exactly for "
+    "members that were assigned / parsed, an unset member reads as its descriptor default (regenerated constants); Python float "
+    "division / product are correctly rounded binary64 and round() is half-even - modelled as Num.ieee over the rationals and tied "
+    "by exact comparison of every stored float (as a fraction) with the model's; the theorems take the roundings as a parameter",
+    "style storage: super.style_identifier, override_count, the constant colour members (model, a, rgbspace) and the image-fill "
+    "technique are not in the model's records (never read back); the model's image table is the images interned in the session "
+    "(_images) - existing `datas` entries matter only for reading",
 ]
 MANIFEST = {
     "text": "Core proved, glue assumed. Lean theorems over a model of CellBorder setters/_order stamps, cell_for_stroke, "
@@ -43,8 +62,19 @@ MANIFEST = {
             "edge (open_view_lww), what extract_strokes reads from the stored layers is the same (saved_view_lww, open_eq_saved), "
             "both cells adjacent to an edge report the same stroke (shared_edge_both_sides); the style de-duplication key is "
             "injective (fingerprint_injective, dedup_shares_only_equal) and a style that was only read is not written "
-            "(reading_is_pure). Attribute-by-attribute storage of styles in protobuf is checked by the oracle only (partial).",
-    "note": "stroke payloads are opaque; protobuf/float32 glue is exercised, not proved. The pinned commit violated the property "
+            "(reading_is_pure). Style storage path (Model/StyleStore.lean): paragraph-style and cell-style archive records, "
+            "add_paragraph_style / update_paragraph_style / add_cell_style, the readers with their one-level parent look-up and "
+            "protobuf defaults, rgb(), Alignment name maps, create_font_name_map, Style.from_storage, the style ids of _to_buffer. "
+            "For every style with colour components 0..255, enum alignments and one fill, a cell pointed at the archives written "
+            "for it reads back exactly that style, attribute by attribute, floats as binary32 holds them (style_attributes_after_"
+            "reload[_quantized|_binary32], updated_style_reads_back, restyled_cell_reads_back); archives of different styles differ "
+            "(style_archives_injective); sharing a cell archive through the fingerprint is sound (shared_cell_style_reads_back); "
+            "cells without a style object keep their ids (saved_cell_style_ids); round(f32(c/255)*255) = c for 0..255 under a "
+            "2^-24 relative-error hypothesis over the rationals (colour_roundtrip) and for correctly rounded binary32/64 "
+            "(colour_roundtrip_binary32); the font map is inverted by the reader (font_name_roundtrip). Partial: the composition of "
+            "these per-cell facts over the whole save loop (object-id allocation, Style objects shared by reference).",
+    "note": "stroke payloads are opaque (their protobuf glue is exercised, not proved); style archives are tied field by field to "
+            "the saved package decoded with protobuf, every float compared as an exact fraction. The pinned commit violated the property "
             "(second stroke ignored in memory, fingerprint collision, style read marks dirty -> gradient save crash); repaired "
             "by fixes/C15-*.patch; the model mirrors the repaired code and keeps the pinned variants as counter-examples.",
     "technique": "Lean 4 proof (invariant over stroke histories, refinement to a last-writer-wins edge map) + differential "
@@ -648,6 +678,522 @@ def _style_worker(task):
 
 
 # ---------------------------------------------------------------------------------------------
+# style storage path: the model's archive records / read-back vs the real archives of the saved package
+# (decoded with protobuf through `layouts.ParsedPackage`, not through the library's readers)
+# ---------------------------------------------------------------------------------------------
+
+TIE_COLOURS = [0, 1, 127, 128, 254, 255]
+TIE_FLOATS = F32 + [0.1, 1.01, 3.3333333333333335, 1e-3]       # also values that binary32 cannot hold: the model predicts f32(x)
+TIE_SIZES = SIZES + [10.1, 0.7]
+STORAGE_FIXTURES = ["test-styles.numbers", "test-bgcolour.numbers", "issue-7.numbers", "test-1.numbers", "test-formats.numbers",
+                    "test-extra-borders.numbers", "issue-69b.numbers", "test-10.numbers", "test-bullets.numbers"]
+
+
+def w_rat(x) -> str:
+    from fractions import Fraction
+    f = Fraction(x)
+    return f"{f.numerator}/{f.denominator}"
+
+
+def w_opt(present: bool, words) -> list:
+    return ["S"] + list(words) if present else ["N"]
+
+
+def w_color(c) -> list:
+    return [w_rat(c.r), w_rat(c.g), w_rat(c.b)]
+
+
+def para_words(o) -> list:
+    """a TSWP.ParagraphStyleArchive as the words of the model's `ParaArc` (protobuf access only)."""
+    cp, pp = o.char_properties, o.para_properties
+    w = [enc_text(o.super.name)]
+    w += w_opt(o.super.HasField("parent"), [str(o.super.parent.identifier)])
+    w += w_opt(cp.HasField("font_color"), w_color(cp.font_color))
+    w += w_opt(cp.HasField("bold"), [str(int(cp.bold))])
+    w += w_opt(cp.HasField("italic"), [str(int(cp.italic))])
+    w += w_opt(cp.HasField("underline"), [str(int(cp.underline))])
+    w += w_opt(cp.HasField("strikethru"), [str(int(cp.strikethru))])
+    w += w_opt(cp.HasField("font_size"), [w_rat(cp.font_size)])
+    w += w_opt(cp.HasField("font_name"), [enc_text(cp.font_name)])
+    has_fill = cp.HasField("tsd_fill") and cp.tsd_fill.HasField("color")
+    w += w_opt(has_fill, w_color(cp.tsd_fill.color) if has_fill else [])
+    w += w_opt(pp.HasField("alignment"), [str(int(pp.alignment))])
+    w += w_opt(pp.HasField("first_line_indent"), [w_rat(pp.first_line_indent)])
+    w += w_opt(pp.HasField("left_indent"), [w_rat(pp.left_indent)])
+    w += w_opt(pp.HasField("right_indent"), [w_rat(pp.right_indent)])
+    return w
+
+
+def cell_arc_words(o) -> list:
+    cp = o.cell_properties
+    w = [enc_text(o.super.name)]
+    w += w_opt(o.super.HasField("parent"), [str(o.super.parent.identifier)])
+    if cp.HasField("cell_fill"):
+        f = cp.cell_fill
+        fw = w_opt(f.HasField("color"), w_color(f.color))
+        stops = list(f.gradient.stops) if f.HasField("gradient") else []
+        fw += w_opt(f.HasField("gradient"), [str(len(stops))] + [x for st in stops for x in w_color(st.color)])
+        fw += w_opt(f.HasField("image"), [str(f.image.imagedata.identifier)])
+        w += ["S"] + fw
+    else:
+        w += ["N"]
+    pd = cp.padding
+    w += w_opt(cp.HasField("padding"), [w_rat(pd.left), w_rat(pd.top), w_rat(pd.right), w_rat(pd.bottom)])
+    w += w_opt(cp.HasField("text_wrap"), [str(int(cp.text_wrap))])
+    w += w_opt(cp.HasField("vertical_alignment"), [str(int(cp.vertical_alignment))])
+    return w
+
+
+class DataIds:
+    """identity of image bytes <-> small number."""
+
+    def __init__(self):
+        self.ids = {}
+
+    def of(self, data) -> int:
+        return self.ids.setdefault(bytes(data), len(self.ids) + 1)
+
+
+def sty_words(s, dids: DataIds) -> list:
+    """a `Style` object (given by the caller, or read by the library) as the words of the model's `Sty`."""
+    w = [str(int(s.alignment.horizontal)), str(int(s.alignment.vertical))]
+    w += w_opt(s.bg_image is not None, [enc_text(s.bg_image.filename), str(dids.of(s.bg_image.data))] if s.bg_image is not None else [])
+    bg = s.bg_color
+    if bg is None:
+        w += ["N"]
+    elif isinstance(bg, list):
+        w += ["G", str(len(bg))] + [str(int(x)) for c in bg for x in c]
+    else:
+        w += ["C"] + [str(int(x)) for x in bg]
+    w += [str(int(x)) for x in s.font_color]
+    w += [w_rat(s.font_size), enc_text(s.font_name)]
+    w += [str(int(bool(x))) for x in (s.bold, s.italic, s.strikethrough, s.underline)]
+    w += [w_rat(s.first_indent), w_rat(s.left_indent), w_rat(s.right_indent), w_rat(s.text_inset)]
+    w += [str(int(bool(s.text_wrap))), enc_text(s.name)]
+    return w
+
+
+class PackageView:
+    """what the style readers need of a saved package, decoded independently of the library's model."""
+
+    def __init__(self, path):
+        import layouts as L
+        self.pp = L.Package.load(path).parsed()
+        self.files = dict(self.pp.pkg.members)
+
+    def table(self, name):
+        for _, tm in self.pp.tables():
+            if tm.table_name == name:
+                return tm
+        return None
+
+    def cell_ids(self, tm) -> dict:
+        """(row, col) -> (text style key, cell style key) from the v5 cell records of the tiles."""
+        import struct
+        from array import array
+        out = {}
+        bds = tm.base_data_store
+        ts = bds.tiles.tile_size or 256
+        for t in bds.tiles.tiles:
+            tile = self.pp.objects[t.tile.identifier]
+            for r in tile.rowInfos:
+                row = t.tileid * ts + r.tile_row_index
+                unit = 4 if r.has_wide_offsets else 1
+                buf = r.cell_storage_buffer
+                for col, o in enumerate(array("h", r.cell_offsets).tolist()):
+                    if o < 0:
+                        continue
+                    st = o * unit
+                    flags = struct.unpack_from("<i", buf, st + 8)[0]
+                    off = st + 12 + (16 if flags & 1 else 0) + (8 if flags & 2 else 0) + (8 if flags & 4 else 0) \
+                        + (4 if flags & 8 else 0) + (4 if flags & 0x10 else 0)
+                    cs = ts_ = None
+                    if flags & 0x20:
+                        cs = struct.unpack_from("<i", buf, off)[0]
+                        off += 4
+                    if flags & 0x40:
+                        ts_ = struct.unpack_from("<i", buf, off)[0]
+                    out[(row, col)] = (ts_, cs)
+        return out
+
+    def style_list(self, tm) -> list:
+        dl = self.pp.objects[tm.base_data_store.styleTable.identifier]
+        return [(e.key, e.reference.identifier) for e in dl.entries]
+
+    def table_words(self, tm) -> list:
+        sl = self.style_list(tm)
+        return ([str(len(sl))] + [str(x) for kv in sl for x in kv]
+                + [str(tm.number_of_rows), str(tm.number_of_header_rows), str(tm.number_of_header_columns), str(tm.number_of_footer_rows),
+                   str(tm.header_row_text_style.identifier), str(tm.header_column_text_style.identifier),
+                   str(tm.footer_row_text_style.identifier), str(tm.body_text_style.identifier)])
+
+    def store_words(self, tm) -> list:
+        """every style object a cell of this table can reach: data-list entries, the four default text styles, one parent level."""
+        ids = [v for _, v in self.style_list(tm)] + [tm.header_row_text_style.identifier, tm.header_column_text_style.identifier,
+                                                     tm.footer_row_text_style.identifier, tm.body_text_style.identifier]
+        for i in list(ids):
+            o = self.pp.objects.get(i)
+            if o is not None and hasattr(o, "super"):
+                ids.append(o.super.parent.identifier)
+        objs = []
+        for i in dict.fromkeys(ids):
+            o = self.pp.objects.get(i)
+            kind = type(o).__name__
+            if kind == "ParagraphStyleArchive":
+                objs.append([str(i), "P"] + para_words(o))
+            elif kind == "CellStyleArchive":
+                objs.append([str(i), "C"] + cell_arc_words(o))
+        return [str(len(objs))] + [x for o in objs for x in o]
+
+    def images_words(self, dids: DataIds) -> list:
+        datas = self.pp.objects[2].datas
+        es = []
+        for d in datas:
+            blob = self.files.get("Data/" + d.file_name)
+            if blob is None:
+                blob = next((b for n, b in self.files.items() if n.endswith("Data/" + d.file_name)), b"?" + d.file_name.encode())
+            es.append([str(d.identifier), enc_text(d.preferred_file_name), str(dids.of(blob))])  # the reader reports the preferred name
+        return [str(max([d.identifier for d in datas], default=0) + 1), str(len(es))] + [x for e in es for x in e]
+
+
+def archive_style(view: PackageView, tm, ids_rc, r, c, dids: DataIds) -> list:
+    """what the archives of the package say about the style of a cell, as `Sty` words: a reader of the harness (protobuf
+    access only) with the documented resolution — own member, else the member of `super.parent`, else the reader default.
+    Used as the oracle of `style-read-differs-from-archives`; it does not go through the Lean model."""
+    from numbers_parser import constants as C
+    from numbers_parser.generated.fontmap import FONT_NAME_TO_FAMILY
+    objs, sl = view.pp.objects, dict(view.style_list(tm))
+    t_id, c_id = ids_rc
+    if t_id is not None:
+        ts = objs[sl[t_id]]
+    elif r < tm.number_of_header_rows:
+        ts = objs[tm.header_row_text_style.identifier]
+    elif c < tm.number_of_header_columns:
+        ts = objs[tm.header_column_text_style.identifier]
+    elif tm.number_of_footer_rows > 0 and tm.number_of_rows - tm.number_of_footer_rows <= r < tm.number_of_rows:
+        ts = objs[tm.footer_row_text_style.identifier]
+    else:
+        ts = objs[tm.body_text_style.identifier]
+    cs = None if c_id is None else objs[sl[c_id]]
+
+    def member(style, group, field):
+        g = getattr(style, group)
+        if g.HasField(field):
+            return getattr(g, field)
+        return getattr(getattr(objs[style.super.parent.identifier], group), field)
+
+    def ints(col):
+        return [str(round(col.r * 255)), str(round(col.g * 255)), str(round(col.b * 255))]
+
+    w = [str(int(member(ts, "para_properties", "alignment"))), "0" if cs is None else str(int(member(cs, "cell_properties", "vertical_alignment")))]
+    if int(w[0]) not in range(5) or int(w[1]) not in range(3):
+        raise ValueError
+    fill = None if cs is None else cs.cell_properties.cell_fill
+    if fill is not None and fill.HasField("image"):
+        d = next(x for x in view.pp.objects[2].datas if x.identifier == fill.image.imagedata.identifier)
+        blob = next(b for n, b in view.files.items() if n.endswith("Data/" + d.file_name))
+        w += ["S", enc_text(d.preferred_file_name), str(dids.of(blob))]
+    else:
+        w += ["N"]
+    if fill is not None and fill.HasField("color"):
+        w += ["C"] + ints(fill.color)
+    elif fill is not None and fill.HasField("gradient"):
+        w += ["G", str(len(fill.gradient.stops))] + [x for st in fill.gradient.stops for x in ints(st.color)]
+    else:
+        w += ["N"]
+    w += ints(member(ts, "char_properties", "font_color"))
+    w += [w_rat(member(ts, "char_properties", "font_size")), enc_text(FONT_NAME_TO_FAMILY[member(ts, "char_properties", "font_name")])]
+    w += [str(int(member(ts, "char_properties", "bold"))), str(int(member(ts, "char_properties", "italic"))),
+          str(int(member(ts, "char_properties", "strikethru") != 0)), str(int(member(ts, "char_properties", "underline") != 0))]
+    w += [w_rat(member(ts, "para_properties", f)) for f in ("first_line_indent", "left_indent", "right_indent")]
+    if cs is None:
+        w += [w_rat(C.DEFAULT_TEXT_INSET), str(int(C.DEFAULT_TEXT_WRAP))]
+    else:
+        w += [w_rat(member(cs, "cell_properties", "padding").left), str(int(member(cs, "cell_properties", "text_wrap")))]
+    return w + [enc_text(ts.super.name)]
+
+
+def read_lines(view: PackageView, tm, tb, dids: DataIds, cells, tag, sub: Ctx | None = None):
+    """`style read` lines: Style.from_storage of the real (reopened) document vs the model on the independently decoded objects."""
+    ids = view.cell_ids(tm)
+    head = ["style", "read"] + view.store_words(tm) + view.table_words(tm) + view.images_words(dids)
+    out = []
+    for (r, c) in cells:
+        t_id, c_id = ids.get((r, c), (None, None))
+        if (r, c) not in ids:
+            continue
+        line = " ".join(head + [str(r), str(c)] + w_opt(t_id is not None, [str(t_id)]) + w_opt(c_id is not None, [str(c_id)]))
+        try:
+            with warnings.catch_warnings(record=True) as caught:
+                warnings.simplefilter("always")
+                st = tb.cell(r, c).style
+            if any("Cannot find file" in str(w.message) for w in caught):
+                continue    # an image whose file is missing from the package: outside the model's image table
+            reply = "ok " + " ".join(sty_words(st, dids))
+        except Exception as e:  # noqa: BLE001
+            reply = "err " + exc_name(e)
+        out.append((line, reply))
+        if sub is not None:
+            try:
+                want = "ok " + " ".join(archive_style(view, tm, ids[(r, c)], r, c, dids))
+            except Exception as e:  # noqa: BLE001
+                want = "err " + exc_name(e)
+            if want != reply and not (want.startswith("err") and reply.startswith("err")):
+                sub.violation("style-read-differs-from-archives",
+                              f"{(tag.get('fixture_read') or tag.get('fixture') or 'new document') if isinstance(tag, dict) else tag}: "
+                              f"cell ({r},{c}) of table {tb.name!r}: the library reads {describe_sty(reply)}, the style archives of "
+                              f"the package (own member, else parent's, else default) say {describe_sty(want)}",
+                              dict(tag if isinstance(tag, dict) else {"fixture": tag}, read_cell=[tb.name, r, c]))
+    return out
+
+
+def describe_sty(words: str) -> str:
+    return words if len(words) < 400 else words[:400] + "…"
+
+
+def tie_style_kwargs(rng, fonts, k, h):
+    """all fifteen attributes given explicitly, from boundary values; alignment pair cycles through all 15."""
+    from numbers_parser import BackgroundImage
+    pair = (h * 4 + k) % 15
+    kw = {"name": f"T{k} " + rng.choice(["Red", "x y", "Body α", "Ünïcode", "a  b"]),
+          "alignment": (HORIZ[pair % 5], VERT[pair // 5]),
+          "font_color": tuple(rng.choice(TIE_COLOURS) for _ in range(3)),
+          "font_size": rng.choice(TIE_SIZES), "font_name": rng.choice(fonts),
+          "bold": rng.random() < 0.5, "italic": rng.random() < 0.5, "strikethrough": rng.random() < 0.5, "underline": rng.random() < 0.5,
+          "first_indent": rng.choice(TIE_FLOATS), "left_indent": rng.choice(TIE_FLOATS), "right_indent": rng.choice(TIE_FLOATS),
+          "text_inset": rng.choice(TIE_FLOATS), "text_wrap": rng.random() < 0.5}
+    fill = rng.random()
+    if fill < 0.2:
+        kw["bg_image"] = BackgroundImage(PNG + bytes([k, h % 251]), f"tie{k}.png")
+    elif fill < 0.8:
+        kw["bg_color"] = tuple(rng.choice(TIE_COLOURS) for _ in range(3))
+    return kw
+
+
+def write_reply(view, dids, st, para, carc):
+    """the reply the model must give for `style write <st>`: the real archives field by field."""
+    cw = cell_arc_words(carc)
+    image_id = carc.cell_properties.cell_fill.image.imagedata.identifier if carc.cell_properties.cell_fill.HasField("image") else 0
+    if st.bg_image is not None:
+        imgs_before = [str(image_id), "0"]
+        imgs_after = [str(image_id + 1), "1", str(image_id), enc_text(st.bg_image.filename), str(dids.of(st.bg_image.data))]
+    else:
+        imgs_before = imgs_after = ["0", "0"]
+    return imgs_before, "ok " + " ".join(para_words(para) + ["|"] + cw + ["|"] + imgs_after)
+
+
+def storage_case(sub: Ctx, seed: int, h: int):
+    """generated styles applied to cells of a new or a fixture document, saved: (1) the archives in the saved package equal the
+    model's archive records field by field, (2) what the library reads after reopening equals the model's read-back of its own
+    write, (3) every cell of the table read by the library equals the model's `from_storage` on the decoded objects,
+    (4) after changing attributes of a saved style and saving again, the updated archive equals the model's update."""
+    from numbers_parser import Document
+    from numbers_parser.model import FONT_FAMILY_TO_NAME
+    rng = sub.rng
+    fonts = sorted(FONT_FAMILY_TO_NAME)
+    dids = DataIds()
+    fixture = None
+    if h % 3 == 2:
+        cands = [f for f in STORAGE_FIXTURES if (REPO / "tests/data" / f).exists()]
+        fixture = cands[(h // 3) % len(cands)]
+        doc = Document(str(REPO / "tests/data" / fixture))
+        tb = doc.sheets[0].tables[0]
+    else:
+        doc = Document(num_rows=rng.randint(2, 5), num_cols=rng.randint(2, 4), num_header_rows=rng.choice([0, 1]),
+                       num_header_cols=rng.choice([0, 1]))
+        tb = doc.sheets[0].tables[0]
+    nr, nc = tb.num_rows, tb.num_cols
+    from numbers_parser.cell import MergedCell
+    free = [(r, c) for r in range(min(nr, 8)) for c in range(min(nc, 6)) if not isinstance(tb.cell(r, c), MergedCell)]
+    rng.shuffle(free)
+    n_styles = rng.randint(1, 3)
+    styles, where_styles = [], []
+    for k in range(n_styles):
+        kw = tie_style_kwargs(rng, fonts, k, h)
+        if kw["name"] in doc.styles:
+            kw["name"] += f" {h}"
+        styles.append(doc.add_style(**kw))
+        where_styles.append({a: (v if not hasattr(v, "filename") else "png:" + v.filename) for a, v in kw.items()})
+    styled = {}
+    for k, rc in enumerate(free[: rng.randint(n_styles, max(n_styles, min(len(free), 5)))]):
+        kk = k if k < n_styles else rng.randrange(n_styles)
+        tb.set_cell_style(rc[0], rc[1], styles[kk])
+        styled[rc] = kk
+    where = {"storage_tie": True, "seed": seed, "case": h, "fixture": fixture, "styles": where_styles,
+             "cells": [[r, c, k] for (r, c), k in sorted(styled.items())]}
+    lines = []
+    fd, path = tempfile.mkstemp(suffix=".numbers")
+    os.close(fd)
+    try:
+        doc.save(path)
+        view = PackageView(path)
+        doc2 = Document(path)
+        tb2 = doc2.sheets[0].tables[0]
+        tm = view.pp.objects[tb2._table_id]
+        ids = view.cell_ids(tm)
+        sl = dict(view.style_list(tm))
+        first_para = {}
+        for (r, c), k in sorted(styled.items()):
+            st = styles[k]
+            t_id, c_id = ids[(r, c)]
+            if t_id is None or c_id is None:
+                sub.violation("styled-cell-without-style-ids", f"cell ({r},{c}) was given style #{k} but its saved record carries "
+                              f"text style id {t_id}, cell style id {c_id}", where)
+                continue
+            para, carc = view.pp.objects[sl[t_id]], view.pp.objects[sl[c_id]]
+            first_para[k] = (sl[t_id], para)
+            imgs_before, reply = write_reply(view, dids, st, para, carc)
+            given = sty_words(st, dids)
+            if carc.super.name != st.name:
+                # the cell archive is shared with an earlier style of the same fingerprint: it carries that style's name
+                other = [s2 for s2 in styles if s2.name == carc.super.name]
+                if not other:
+                    sub.violation("cell-style-archive-of-unknown-style", f"cell ({r},{c}): cell style archive named {carc.super.name!r}", where)
+                    continue
+                shared = cell_arc_words(carc)
+                shared[0] = enc_text(st.name)
+                reply = "ok " + " ".join(para_words(para) + ["|"] + shared + ["|"] + reply.split(" | ")[-1].split(" "))
+            lines.append((" ".join(["style", "write"] + given + imgs_before), reply))
+            # the reopened Style against the model's read-back of its own write
+            try:
+                got = "ok " + " ".join(sty_words(tb2.cell(r, c).style, dids))
+            except Exception as e:  # noqa: BLE001
+                got = "err " + exc_name(e)
+            lines.append((" ".join(["style", "roundtrip"] + given + imgs_before), got))
+        # every cell of the table (styled or not), read by the library vs the model on the decoded objects
+        some = [(r, c) for r in range(min(nr, 12)) for c in range(min(nc, 8))]
+        lines += read_lines(view, tm, tb2, dids, some, where, sub)
+        sub.count("storage tie: archives of the saved package vs model records (write), reopened Style vs model read-back, "
+                  "Style.from_storage vs model on decoded objects", 1)
+        sub.mark(("storage", seed, h))
+        # (4) attributes of saved styles changed (also the name), saved again: update_paragraph_style
+        if rng.random() < 0.7 and first_para:
+            from numbers_parser import RGB
+            k = rng.choice(sorted(first_para))
+            st = styles[k]
+            for a in rng.sample(["name", "bold", "font_color", "font_size", "font_name", "halign", "left_indent", "underline"], 3):
+                if a == "name":
+                    st.name = st.name + " renamed"
+                elif a == "bold":
+                    st.bold = not st.bold
+                elif a == "underline":
+                    st.underline = not st.underline
+                elif a == "font_color":
+                    st.font_color = RGB(*(rng.choice(TIE_COLOURS) for _ in range(3)))
+                elif a == "font_size":
+                    st.font_size = rng.choice(TIE_SIZES)
+                elif a == "font_name":
+                    st.font_name = rng.choice(fonts)
+                elif a == "halign":
+                    st.alignment = (rng.choice(HORIZ), st.alignment.vertical.name.lower())
+                else:
+                    st.left_indent = rng.choice(TIE_FLOATS)
+            doc.save(path)
+            view2 = PackageView(path)
+            # the style ids `_to_buffer` wrote in this second save, cell by cell in row-major order, from the list the first
+            # save left behind; cells that carry no `_style` must keep their ids
+            tm2 = view2.pp.objects[tb2._table_id]
+            ids2 = view2.cell_ids(tm2)
+            sl1 = view.style_list(tm)
+            order = [(r, c) for r in range(nr) for c in range(nc)]
+            if all(rc in ids and rc in ids2 for rc in order):
+                words = [str(max([k_ for k_, _ in sl1], default=0) + 1), str(len(sl1))] + [str(x) for kv in sl1 for x in kv] + [str(len(order))]
+                reply = []
+                for (r, c) in order:
+                    cell = tb._data[r][c]
+                    t_id, c_id = ids[(r, c)]
+                    words += [str(r), str(c)] + w_opt(t_id is not None, [str(t_id)]) + w_opt(c_id is not None, [str(c_id)])
+                    if cell._style is None:
+                        words += ["N"]
+                    else:
+                        a, b = cell._style._text_style_obj_id, cell._style._cell_style_obj_id
+                        words += ["S"] + w_opt(a is not None, [str(a)]) + w_opt(b is not None, [str(b)])
+                    t2, c2 = ids2[(r, c)]
+                    reply += w_opt(t2 is not None, [str(t2)]) + w_opt(c2 is not None, [str(c2)])
+                    if cell._style is None and (t2, c2) != (t_id, c_id):
+                        sub.violation("unstyled-cell-style-ids-changed", f"cell ({r},{c}) carries no style object but its saved style ids "
+                                      f"changed from {(t_id, c_id)} to {(t2, c2)} in the second save", where)
+                sl2 = view2.style_list(tm2)
+                lines.append((" ".join(["style", "ids"] + words),
+                              "ok " + " ".join(reply) + " | " + " ".join([str(len(sl2))] + [str(x) for kv in sl2 for x in kv])))
+            oid, old = first_para[k]
+            new = view2.pp.objects.get(oid)
+            if new is None:
+                sub.violation("updated-style-object-missing", f"paragraph style object {oid} is not in the package saved second", where)
+            else:
+                lines.append((" ".join(["style", "update", "0"] + sty_words(st, dids) + para_words(old)), "ok " + " ".join(para_words(new))))
+                want = style_tuple(st)
+                d3 = Document(path)
+                for (r, c), kk in styled.items():
+                    if kk == k:
+                        got = cell_style_or_exc(d3.sheets[0].tables[0].cell(r, c))
+                        if got != want and all(float(x) == _f32(x) for x in (st.font_size, st.first_indent, st.left_indent, st.right_indent, st.text_inset)):
+                            sub.violation("style-changed-after-save-reloaded-differs", f"style #{k} changed after the first save, saved "
+                                          f"again: cell ({r},{c}) reloads with {diff_attrs(got, want)}", where)
+    finally:
+        os.unlink(path)
+    return lines
+
+
+def _f32(x):
+    import struct
+    return struct.unpack("<f", struct.pack("<f", float(x)))[0]
+
+
+def fixture_read_case(sub: Ctx, name: str):
+    """every cell (capped) of every table of a fixture: Style.from_storage vs the model on independently decoded objects."""
+    from numbers_parser import Document
+    path = str(REPO / "tests/data" / name)
+    try:
+        doc = Document(path)
+        view = PackageView(path)
+    except Exception:  # noqa: BLE001
+        return []
+    dids = DataIds()
+    lines = []
+    for sh in doc.sheets:
+        for tb in sh.tables:
+            tm = view.pp.objects.get(tb._table_id)
+            if tm is None or type(tm).__name__ != "TableModelArchive":
+                continue
+            try:
+                cells = [(r, c) for r in range(min(tb.num_rows, 14)) for c in range(min(tb.num_cols, 10))]
+                lines += read_lines(view, tm, tb, dids, cells, {"fixture_read": name}, sub)
+            except Exception as e:  # noqa: BLE001
+                sub.notes.append(f"{name}: table {tb.name!r} not decoded independently ({exc_name(e)})")
+    sub.count("fixture cells: Style.from_storage vs model on independently decoded style objects (inheritance, defaults)", len(lines))
+    if lines:
+        sub.mark(("fixture-read", name))
+    return lines
+
+
+def table_lines():
+    """exhaustive small tables: alignment names, font families, colour channels, rename on update (pinned vs repaired)."""
+    from numbers_parser import Alignment
+    from numbers_parser.model import FONT_FAMILY_TO_NAME, rgb
+    from numbers_parser.generated import TSPMessages_pb2 as P
+    req, out = [], []
+    names_h = HORIZ + ["LEFT", "Center", "AUTO", "x", "", "top", "İ"]
+    names_v = VERT + ["TOP", "Middle", "left", "", "boTTom"]
+    for hz in names_h:
+        for vt in names_v:
+            req.append(f"style align {enc_text(hz)} {enc_text(vt)}")
+            try:
+                a = Alignment(hz, vt)
+                out.append(f"ok {int(a.horizontal)} {int(a.vertical)}")
+            except Exception as e:  # noqa: BLE001
+                out.append("err " + exc_name(e))
+    for fam in list(FONT_FAMILY_TO_NAME) + ["No Such Font", "", "helvetica neue"]:
+        req.append(f"style font {enc_text(fam)}")
+        out.append("ok " + enc_text(FONT_FAMILY_TO_NAME[fam]) if fam in FONT_FAMILY_TO_NAME else "err KeyError")
+    for c in list(range(256)) + [-1, 256, 300, 1000]:
+        col = P.Color(r=c / 255, g=0, b=0)
+        req.append(f"style chan {c}")
+        out.append(f"ok {w_rat(col.r)} {rgb(col).r}")
+    return req, out
+
+
+# ---------------------------------------------------------------------------------------------
 # reading is pure: twin documents, one of them read completely before saving
 # ---------------------------------------------------------------------------------------------
 
@@ -846,6 +1392,30 @@ def scenario(name):
         if (None if o is None else tuple(o)) != (None if s2 is None else tuple(s2)):
             return ("bg-color-lost-next-to-image-fill", "a style with a background image is also given bg_color=RGB(1, 223, 33): the open "
                     f"document reports bg_color {tuple(o) if o else None}, the reloaded file {tuple(s2) if s2 else None}")
+    elif name == "read-style-text-attribute":
+        doc = Document()
+        tb = doc.sheets[0].tables[0]
+        tb.write(1, 1, "x")
+        st = tb.cell(1, 1).style
+        st.italic = True
+        st.font_size = 20.0
+        o = (tb.cell(1, 1).style.italic, tb.cell(1, 1).style.font_size)
+        s2 = cycle(doc).sheets[0].tables[0].cell(1, 1).style
+        if o != (s2.italic, s2.font_size):
+            return ("read-style-text-attribute-change-not-saved", "cell.style.italic = True; cell.style.font_size = 20.0 on cell B2 of a new "
+                    f"document: the open document reports (italic, font_size) = {o}, the reloaded file {(s2.italic, s2.font_size)}")
+    elif name == "rename-saved-style":
+        doc = Document()
+        tb = doc.sheets[0].tables[0]
+        st = doc.add_style(name="A", bold=True)
+        tb.write(0, 0, "x", style=st)
+        cycle(doc)
+        st.name = "B"
+        o = tb.cell(0, 0).style.name
+        s2 = cycle(doc).sheets[0].tables[0].cell(0, 0).style.name
+        if o != s2:
+            return ("style-changed-after-save-reloaded-differs", "style 'A' applied to A1 and saved, then style.name = 'B' and saved again: the "
+                    f"open document reports name {o!r}, the reloaded file {s2!r}")
     elif name == "gradient-style-modified":
         f = REPO / "tests/data/issue-7.numbers"
         if f.exists():
@@ -862,7 +1432,7 @@ def scenario(name):
 
 SCENARIOS = ["second-stroke", "fingerprint", "fingerprint-1.01", "gradient-read-then-save", "float-not-binary32", "all-colour-values",
              "all-fonts", "all-alignments", "stroke-then-merge", "stroke-then-write", "gradient-style-modified", "same-image-bytes",
-             "image-and-colour-fill"]
+             "image-and-colour-fill", "read-style-text-attribute", "rename-saved-style"]
 
 
 def _scenario_worker(task):
@@ -900,6 +1470,34 @@ def flag_lines():
     return req, out
 
 
+def _storage_worker(task):
+    warnings.simplefilter("ignore")
+    seed, h = task
+    sub = Ctx(PID, "quick", seed * 3_000_017 + h)
+    try:
+        lines = storage_case(sub, seed, h)
+    except Exception as e:  # noqa: BLE001
+        import traceback
+        sub.violation("storage-case-raises", f"{exc_name(e)}: {e}; {traceback.format_exc(limit=4)}", {"storage_tie": True, "seed": seed, "case": h})
+        lines = []
+    return common.sub_result(sub, lines)
+
+
+def _fixture_read_worker(task):
+    warnings.simplefilter("ignore")
+    (name,) = task
+    sub = Ctx(PID, "quick", 0)
+    try:
+        lines = fixture_read_case(sub, name)
+    except Exception as e:  # noqa: BLE001
+        import traceback
+        sub.violation("fixture-read-case-raises", f"{name}: {exc_name(e)}: {e}; {traceback.format_exc(limit=4)}", {"fixture_read": name})
+        lines = []
+    return common.sub_result(sub, lines)
+
+
+READ_QUICK = ["test-styles.numbers", "test-bgcolour.numbers", "issue-7.numbers", "test-1.numbers", "test-formats.numbers",
+              "issue-69b.numbers", "test-10.numbers", "test-bullets.numbers", "test-extra-borders.numbers", "issue-32.numbers"]
 TWIN_QUICK = ["issue-7.numbers", "test-1.numbers", "test-bullets.numbers", "test-bgcolour.numbers", "issue-69b.numbers",
               "test-extra-borders.numbers", "test-hlinks.numbers", "issue-32.numbers", "test-10.numbers"]
 
@@ -910,17 +1508,26 @@ def run(ctx: Ctx):
     n_sty = 500 if ctx.quick else 5000
     fixtures = sorted(p.name for p in (REPO / "tests/data").glob("*.numbers"))
     twins = [f for f in TWIN_QUICK if f in fixtures] if ctx.quick else fixtures
+    n_tie = 100 if ctx.quick else 1500
+    reads = [f for f in READ_QUICK if f in fixtures] if ctx.quick else fixtures
     tasks = ([("b", ctx.seed, h) for h in range(n_hist)] + [("s", ctx.seed, h) for h in range(n_sty)]
-             + [("t", f) for f in twins] + [("x", n) for n in SCENARIOS])
-    breq, bout, sreq, sout = [], [], [], []
+             + [("t", f) for f in twins] + [("x", n) for n in SCENARIOS]
+             + [("g", ctx.seed, h) for h in range(n_tie)] + [("r", f) for f in reads])
+    breq, bout, sreq, sout, greq, gout = [], [], [], [], [], []
     for task, lines in zip(tasks, common.run_parallel(ctx, _dispatch, tasks)):
         for a, b in lines or []:
-            (breq if task[0] == "b" else sreq).append(a)
-            (bout if task[0] == "b" else sout).append(b)
+            (breq if task[0] == "b" else greq if task[0] in "gr" else sreq).append(a)
+            (bout if task[0] == "b" else gout if task[0] in "gr" else sout).append(b)
     ctx.correspond("border histories: open view | view extracted from the saved layers (one line per segment)", breq, bout,
                    keep=1, nontrivial=lambda r, o: False)
     ctx.correspond("update_cell_styles: which cells share a new cell-style object", sreq, sout, keep=1,
                    nontrivial=lambda r, o: False)
+    ctx.correspond("style storage path: add_paragraph_style / add_cell_style / update_paragraph_style archives of the saved package, "
+                   "reopened Style vs read-back of the model's write, Style.from_storage on decoded objects (new and fixture documents)",
+                   greq, gout, keep=1, nontrivial=lambda r, o: False)
+    req, out = table_lines()
+    ctx.correspond("Alignment(names) x FONT_FAMILY_TO_NAME (every family) x colour channel 0..255 (stored float32, read back)", req, out,
+                   exhaustive=True, keep=1)
     req, out = flag_lines()
     ctx.correspond("Style.__setattr__ flags: constructed and read styles x every attribute name", req, out, exhaustive=True, keep=1)
 
@@ -932,6 +1539,10 @@ def _dispatch(task):
         return _style_worker(task[1:])
     if task[0] == "t":
         return _twin_worker(task[1:])
+    if task[0] == "g":
+        return _storage_worker(task[1:])
+    if task[0] == "r":
+        return _fixture_read_worker(task[1:])
     return _scenario_worker(task[1:])
 
 
@@ -942,6 +1553,18 @@ def replay(data):
     if "scenario" in i:
         r = scenario(i["scenario"])
         return {"scenario": i["scenario"], "result": "property holds" if r is None else {"signature": r[0], "what": r[1]}}
+    if i.get("storage_tie"):
+        sub = Ctx(PID, "quick", i["seed"] * 3_000_017 + i["case"])
+        lines = storage_case(sub, i["seed"], i["case"])
+        model = common.run_model([a for a, _ in lines])
+        return {"violations": sub.violations,
+                "model_vs_real": [{"request": a[:300], "real": b, "model": m} for (a, b), m in zip(lines, model) if b != m][:5]}
+    if "fixture_read" in i:
+        sub = Ctx(PID, "quick", 0)
+        lines = fixture_read_case(sub, i["fixture_read"])
+        model = common.run_model([a for a, _ in lines])
+        return {"violations": sub.violations,
+                "model_vs_real": [{"request": a[-120:], "real": b, "model": m} for (a, b), m in zip(lines, model) if b != m][:5]}
     if "fixture" in i:
         r = _twin_worker((i["fixture"],))
         return {"fixture": i["fixture"], "violations": r["violations"]}
